@@ -664,6 +664,42 @@ struct C03
         // (2) through the decoder and (3) through Packet::isValidPacket / Packet(msgType, ...)
         uint8_t mt = (cls == CL_CM || cls == CL_IF) ? wire::MT_STATUS : wire::MT_DATA;
         static const uint8_t pts[] = {wire::PT_CAN, wire::PT_CANFD, wire::PT_LIN, wire::PT_ETHERNET, wire::PT_ANALOG, wire::PT_CM_STATUS, wire::PT_IF_STATUS};
+        // (4) through the decoder as a segmented message (2..5 segments; the buffer may be longer than one message can carry,
+        // the decoder accepts such histories): whatever comes back marked valid is held to the same standard
+        if (b.size() >= 2 && b.size() <= 4 * 65535 && (b.size() > 65535 || c.evaluations % 4 == 0))
+        {
+            size_t nseg = std::max<size_t>(2, (b.size() + 65534) / 65535 + (hashBytes(b.data(), b.size()) % 2));
+            nseg = std::min(nseg, b.size());
+            Decoder dec;
+            size_t off = 0;
+            for (size_t i = 0; i < nseg; ++i)
+            {
+                size_t n = (i + 1 == nseg) ? b.size() - off : std::min<size_t>(65535, (b.size() + nseg - 1) / nseg);
+                GMsg m;
+                m.ts = 3;
+                m.idWord = 4;
+                m.ptype = pts[cls];
+                m.flags = i == 0 ? wire::SEG_FIRST : (i + 1 == nseg ? wire::SEG_LAST : wire::SEG_MID);
+                m.payload.assign(b.begin() + static_cast<long>(off), b.begin() + static_cast<long>(off + n));
+                off += n;
+                Bytes f = buildFrame(1, 7, mt, 1, static_cast<uint16_t>(65534 + i), {m});
+                auto got = decodeCopy(dec, f);
+                for (auto& p : got)
+                {
+                    if (!p || !p->isValid())
+                        continue;
+                    AccessResult a;
+                    accessPacketHeader(a, *p);
+                    const char* cn = accessTyped(a, p->getPayload());
+                    c.count("reassembled_valid_packets");
+                    if (!a.badView.empty())
+                        c.violation("C03:view-outside-payload", std::string("decoder returned a valid reassembled ") + (cn ? cn : "?") + " packet (" + std::to_string(b.size()) + " segment bytes in " +
+                                                                        std::to_string(nseg) + " segments): " + a.detail,
+                                    in);
+                }
+            }
+            c.count("buffers_through_reassembly");
+        }
         if (b.size() <= 65535)
         {
             GMsg m;
